@@ -145,29 +145,27 @@ theorem C11_wrap_single {α : Type} [DecidableEq α] (cx : Ctx α) (hs : cx.Sane
       .ok (Editor.root (wrapPara cx width (o.withDefaults cx).lineSep p) (single o)) :=
   wrapOpts_single cx hs width o p
 
-/-- the same link for Align (unbordered line separator) -/
+/-- the same link for Align — for EVERY non-empty line separator, also a self-overlapping one -/
 theorem C11_align_single {α : Type} [DecidableEq α] (cx : Ctx α) (align width : Int)
     (o : Options α)
     (hal : align = Gen.alignLeft ∨ align = Gen.alignRight ∨ align = Gen.alignCenter)
     (hsep : (o.withDefaults cx).lineSep ≠ [])
-    (hu : Unbordered (o.withDefaults cx).lineSep)
     (p : List α) :
     (Editor.root p (single o)).alignOpts cx align width (single o) =
       .ok (Editor.root (alignParaWith (fun l => alignFn cx align l width)
         (o.withDefaults cx).lineSep p) (single o)) :=
-  alignOpts_single cx align width o hal hsep hu p
+  alignOpts_single cx align width o hal hsep p
 
-/-- the same link for Justify -/
+/-- the same link for Justify — for EVERY line separator, also a self-overlapping one -/
 theorem C11_justify_single {α : Type} [DecidableEq α] (cx : Ctx α) (hs : cx.Sane)
     (hd : cx.dLineSep ≠ [])
     (width : Int)
     (o : Options α)
-    (hu : Unbordered (o.withDefaults cx).lineSep)
     (p : List α) :
     (Editor.root p (single o)).justifyOpts cx width (single o) =
       .ok (Editor.root (justifyParaWith (fun l => justified cx l width)
         (o.withDefaults cx).lineSep (o.withDefaults cx).justifyLast p) (single o)) :=
-  justifyOpts_single cx hs hd width o hu p
+  justifyOpts_single cx hs hd width o p
 
 /-- the same link for Indent -/
 theorem C11_indent_single {α : Type} [DecidableEq α] (cx : Ctx α) (level : Int)
